@@ -42,6 +42,10 @@ CHECKS['C09'] = ('E3', 'model_checking',
     'Real Timer components (1-3 per program; intervals {0, 1/2, 1, 5/2}; persistent or one-shot; float or absolute datetime deadline; created at virtual time 0 or 1/2; optional reset()/unregister() at grid times; optional event chain and generator task in the background) run under the real run() on a virtual clock. Every environment script with <=k deviations (each idle wait: as requested / 1/8 late / half = spurious early wake; each loop iteration: cost 0 / 1/8) is executed; on every execution: no firing before start+interval (whole-second deadline for datetimes), one-shots fire once and remove themselves, persistent firings are >= interval apart and stop after unregistration, reset() restarts, no idle wait is requested past the earliest pending expiry, and a timer that is due when its loop iteration starts fires in that iteration.',
     'Trusted: virtual clock and virtual wait doubles (module globals time / helpers.Event, TIMEOUT patched to 1/8 for exact arithmetic); the instance-level spy on Timer.fire; fallback idle wait only.',
     'deviation-bounded exhaustive enumeration of environment answers on a virtual clock, real run() and real Timer', 'DESIGN.md 3/E3, 6/C09')
+CHECKS['C10'] = ('E1', 'model_checking',
+    'Explicit-state BFS over histories of addReader/addWriter/removeReader/removeWriter/discard and peer actions (write, drain, fill the send buffer, unfill, peer close, discard+close+reopen on the same fd number, close-without-discard + reopen + register, close-without-discard with the number taken by an unrelated descriptor) on 1-2 real AF_UNIX socket pairs; every history is replayed on fresh sockets under Select, Poll and EPoll, two zero-time-out loop iterations after each operation. Judged on every state: an event only for a descriptor registered for that role and ready for it, a ready registered descriptor gets exactly one event per iteration, on the channel of the registering component, nothing ever names a discarded/closed socket object, and the three pollers fire the same event set.',
+    'Trusted: Linux AF_UNIX readiness measured with select/poll by the harness; set model of registrations; events for hung-up descriptors judged only for naming registered live objects.',
+    'explicit-state BFS over operation histories on real sockets, cross-checked between the three poller implementations', 'DESIGN.md 6/C10')
 NOT_YET = {}
 def main():
     props = [json.loads(l) for l in open(os.path.join(HERE, 'properties.jsonl'))]
